@@ -433,6 +433,62 @@ def rule_eofmark(ctx, R):
     return p_c12.rule_eofmark(ctx, R, DEBUG)
 
 
+def rule_show(ctx, R, fn=None):
+    """the closure that displays captured text (handed to CustomWriter::new) shows every non-empty text: its only
+    decision is `text.is_empty()`, and on the non-empty side every normally returning path writes the text itself"""
+    fb = ctx.fb
+    fn = fn or DEBUG
+    b = fb.bodies.get(fn)
+    if not R.anchor(b is not None, "fn", fn):
+        return
+    from .templates import templates_of
+    n = 0
+    for c in fb.closures_of(b):
+        if c.argc != 2 or c.lty(2) not in ("std::string::String", "&str", "&std::string::String"):
+            continue
+        n += 1
+        R.analyse(c.name)
+        cfg = normal_cfg(c)
+        roles = Roles(c, fb, param_roles={2: "TEXT"})
+        ev = Events(c, fb, roles=roles)
+        tag = c.name.rsplit("::", 1)[-1]
+        conds = set()
+        nonempty = []
+        for gb, blk in enumerate(c.blocks):
+            tt = blk["term"]
+            if tt["k"] != "switch" or blk["cleanup"]:
+                continue
+            for s_ in cfg.succ[gb]:
+                lab = ev.generic_edge(gb, tt, s_)
+                if lab and lab.startswith("BR["):
+                    conds.add(lab.rsplit("=", 1)[0])
+                    if lab in ("BR[String::is_empty(TEXT)]=0", "BR[str::is_empty(TEXT)]=0"):
+                        nonempty.append(s_)
+                elif lab and (lab.startswith("EQ[") or lab.startswith("LT[")) and "TEXT" in lab:
+                    conds.add(lab.rsplit("=", 1)[0])
+        allowed = {"BR[String::is_empty(TEXT)]", "BR[str::is_empty(TEXT)]"}
+        R.check(conds <= allowed, "show:%s:guard" % tag, "the display closure decides only on emptiness of the text (whitespace-only output is output): %s" % sorted(conds), c.span)
+        # the write that prints TEXT itself
+        shows = []
+        try:
+            for t in templates_of(c, fb, roles.org):
+                if any(roles.of_origin(a) == "TEXT" for a in t.args):
+                    # the write_fmt that consumes this Arguments value: the next write_fmt after the template block
+                    shows.append(t.block)
+        except Exception as e:
+            R.fail("show:%s:templates" % tag, "templates of the display closure cannot be recovered: %s" % e, c.span)
+            continue
+        writes = [bi for bi, t in c.calls() if callee_name(t["f"], fb).endswith("write_fmt")]
+        show_writes = [w for w in writes if any(reaches_without(cfg, [sb], w, cut_blocks=[x for x in writes if x != w]) for sb in shows)]
+        ok_returns = [r for r in cfg.returns]
+        from .cfg import question_mark_error_edges
+        qerr = question_mark_error_edges(c) if callable(question_mark_error_edges) else []
+        start = nonempty or [0]
+        ok = bool(show_writes) and not reaches_without(cfg, start, ok_returns, cut_blocks=show_writes, cut_edges=list(qerr))
+        R.check(ok, "show:%s:shows_text" % tag, "every non-empty captured text is written to the terminal (no path to a normal return skips the write of the text)", c.span)
+    R.floor("display_closures:" + fn.rsplit("::", 2)[-2], n, 2, "display closures handed to the capturing writers")
+
+
 RULES = [
     ("C11.SNAPSHOT", "steps run on a clone of the newest snapshot; history only via push/pop/last/len; previous pops once under len > 1", rule_snapshot),
     ("C11.BP", "breakpoints entered by the user are range-checked before insertion; run consults the set before every step", rule_bp),
@@ -443,4 +499,5 @@ RULES = [
     ("C11.FRESH", "views of the newest history entry are re-read after every push/pop before they are used", rule_fresh),
     ("C11.BPX", "breakpoint membership alone decides stop/step while running; run steps once first", rule_bp_exact),
     ("C11.EOFMARK", "an entered empty line is not taken for end of input (reader keeps the terminator)", rule_eofmark),
+    ("C11.SHOW", "the display callbacks of the capturing writers show every non-empty text", rule_show),
 ]
